@@ -46,8 +46,8 @@ func c19Init(mc.Tier) (int, error) {
 	L2 := pki.Issue(t2, pki.K("p256-e"), inter, nil) // same subject + key, other serial
 	t3 := lt
 	t3.NotAfter = pki.Now.Add(200 * 24 * time.Hour)
-	L3 := pki.Issue(t3, pki.K("p256-e"), inter, nil) // same subject + key + serial, other validity
-	L4 := pki.Issue(lt, pki.K("p256-f"), inter, nil) // same subject + serial, other key
+	L3 := pki.Issue(t3, pki.K("p256-e"), inter, nil)  // same subject + key + serial, other validity
+	L4 := pki.Issue(lt, pki.K("p256-f"), inter, nil)  // same subject + serial, other key
 	L5 := pki.Issue(lt, pki.K("p256-e"), interB, nil) // cross-signed: same subject, key, serial; other issuer key
 	c19.names = []string{"L", "L-otherSerial", "L-otherValidity", "L-otherKey", "L-crossSigned", "I", "R"}
 	for _, c := range []*pki.Cert{L, L2, L3, L4, L5, inter, rootA} {
